@@ -173,7 +173,12 @@ impl Tok {
                     .ok_or_else(|| Violation::new("event-layout", format!("event {} topic {k} is not a known account", ev.name)))
             };
             let amt = |k: &str| ev.field_i128(k).ok_or_else(|| Violation::new("event-layout", format!("event {} lacks i128 field {k}", ev.name)));
+            // vault shares: the statement names the deposit and withdraw events (plus transfers) as the
+            // record of share balances; mint/burn events a vault may additionally emit for the same
+            // movement must not be counted twice
+            let vault = matches!(self.flavour, Flavour::Vault(_));
             match ev.name.as_str() {
+                "mint" | "burn" if vault => {}
                 "mint" => {
                     let (t, a) = (party(1)?, amt("amount")?);
                     ledger[t] += a;
